@@ -213,12 +213,60 @@ def rule_populate(ctx, R):
         if p.end == "return":
             ret = N(p.ret)
             ats = branch_atoms(p)
-            if any(a == ("cmp", "Le", ln, ("const", 0)) and t for (a, t) in ats) or any(a == ("cmp", "Lt", ("const", 0), ln) and not t for (a, t) in ats):
+            if _zero(p, lambda x: strip_epochs(x) == strip_epochs(ln)):
                 ok = ret == ("agg", "adt", "archetype::slot::SlotIndex", "SlotIndex", (("0", ("const", 4294967295)),), 0)
                 R.check(ok, "C12-R4", key + "|empty", "empty slot array => free list end", "empty case returns %s" % show(ret), where_of(fn), fn=fn.key)
             else:
                 ok = ret[0] == "agg" and ret[4][0][1][0] == "bin" and ret[4][0][1][1] == "BitOr" and ret[4][0][1][2] == start_raw
                 R.check(ok, "C12-R4", key + "|head", "returns new_free(start)", "returns %s; expected new_free(start)" % show(ret), where_of(fn), fn=fn.key)
+
+
+def _enum_payload(V):
+    """V = payload tuple of Some(next(loopvar(init = into_iter(enumerate(iter(S)))))) -> S (the enumerated slice expr)"""
+    if V[0] == "vfield" and V[2] == "0" and V[1][0] == "vdown" and V[1][2] == "Some":
+        c = V[1][1]
+        if is_call(c, "next") and c[2] and "Enumerate" in c[1]:
+            lv = c[2][0]
+            if lv[0] == "loopvar" and lv[3] is not None and is_call(lv[3], "into_iter"):
+                x = lv[3][2][0]
+                if is_call(x, "enumerate") and is_call(x[2][0], "iter"):
+                    return x[2][0][2][0]
+    return None
+
+
+def index_extent(idx):
+    """E such that idx ranges over 0..E on the iterations of the enclosing loop: `for idx in 0..E` or
+    `for (idx, _) in slice(ptr, E).iter().enumerate()`; None if idx is anything else"""
+    item = loop_item(idx)
+    if item is not None and item[0] == "agg" and item[2] == "std::ops::Range":
+        d_ = dict(item[4])
+        if d_.get("start") == ("const", 0):
+            return d_.get("end")
+        return None
+    if idx[0] == "vfield" and idx[2] == "0":
+        sl = _enum_payload(idx[1])
+        if sl is not None:
+            parts = slice_parts(sl)
+            if parts is not None:
+                return parts[1]
+    return None
+
+
+def element_source(val, idx):
+    """(array pointer expr, extent) when val is (a clone of) cell `idx` of slice(array, extent)"""
+    for x in subterms(val):
+        if is_call(x, "slice::get_unchecked") and x[2][1] == idx:
+            parts = slice_parts(x[2][0])
+            if parts is not None:
+                return parts
+    # the element reference handed out by enumerate() alongside idx
+    if idx[0] == "vfield" and idx[2] == "0":
+        for x in subterms(val):
+            if x[0] == "vfield" and x[2] == "1" and x[1] == idx[1]:
+                sl = _enum_payload(x[1])
+                if sl is not None:
+                    return slice_parts(sl)
+    return None
 
 
 def loop_item(V):
@@ -245,8 +293,8 @@ def rule_ctor(ctx, R):
         key = "%s::%s" % (S.name, fname(f))
         ps = ctx.paths(f)
         cap = ("arg", 1)
-        le = (("cmp", "Le", cap, ("const", MAXCAP)), True)
-        gt = (("cmp", "Le", cap, ("const", MAXCAP)), False)
+        le = (("cmp", "Lt", ("const", MAXCAP), cap), False)
+        gt = (("cmp", "Lt", ("const", MAXCAP), cap), True)
         for pi, p in enumerate(ps or ()):
             atoms = branch_atoms(p)
             if p.end == "return":
@@ -428,25 +476,19 @@ def rule_cloner(ctx, R):
             for e in writes:
                 idx = N(e[3][1])
                 val = N(e[3][2], clone=True)
-                item = loop_item(idx)
-                # source: *get_unchecked(slice(self.X, ext), idx) (Clone::clone made transparent)
-                src = None
-                for x in subterms(val):
-                    if is_call(x, "slice::get_unchecked"):
-                        src = x
-                        break
                 ok = False
                 arr = None
-                if src is not None and item is not None:
-                    parts = slice_parts(src[2][0])
-                    if parts is not None:
-                        arr = array_of(parts[0], S)
-                        want = cap_rng if arr == S.slots else len_rng
-                        ok = src[2][1] == idx and strip_epochs(item) == strip_epochs(want)
-                        # destination must be the fresh array that ends up in the same field
-                        dst = N(e[3][0])
-                        fin = d.get(arr)
-                        ok = ok and fin is not None and same_local(dst, fin)
+                rng_ext = index_extent(idx)          # idx ranges over 0..rng_ext (index loop or slice.iter().enumerate())
+                srcinfo = element_source(val, idx)    # val = clone of cell idx of slice(array, ext)
+                if rng_ext is not None and srcinfo is not None:
+                    (aptr, ext) = srcinfo
+                    arr = array_of(aptr, S)
+                    want_ext = sf("capacity") if arr == S.slots else sf("len")
+                    ok = strip_epochs(rng_ext) == strip_epochs(want_ext) and strip_epochs(ext) == strip_epochs(want_ext)
+                    # destination must be the fresh array that ends up in the same field
+                    dst = N(e[3][0])
+                    fin = d.get(arr)
+                    ok = ok and fin is not None and same_local(dst, fin)
                 seen_arrays.append(arr)
                 R.check(ok, "C13-R2", key + "|copy(%s)" % arr, "cell i of %s cloned into cell i of the new %s for i in 0..%s" % (arr, arr, "capacity" if arr == S.slots else "len"),
                         "copy loop writes %s[%s] <- %s; expected element-wise clone over Range(0, %s) into the array that becomes the clone's %s" % (arr, show(idx)[:80], show(val)[:120], "capacity" if arr == S.slots else "len", arr), where_of(f, e[5]), fn=f.key)
@@ -532,10 +574,51 @@ def rule_iters(ctx, R):
                     stores.setdefault(L[2], []).append(N(e[2]))
         for pf in ptrs:
             v = stores.get(pf, [])
-            ok = len(v) == 1 and is_call(v[0], "offset") and v[0][2] == (sf(pf), ("const", 1))
+            ok = len(v) == 1 and any(is_call(v[0], m_) for m_ in ("offset", "add", "wrapping_add", "wrapping_offset")) and v[0][2] == (sf(pf), ("const", 1))
             R.check(ok, "C06-R2", key + "|advance(%s)" % pf, "pointer advanced by exactly one element once", "field %s is updated with %s; expected offset(old, 1) exactly once" % (pf, [show(x) for x in v]), where_of(f), fn=f.key)
         v = stores.get(cnt, [])
         R.check(len(v) == 1 and v[0] == ("bin", "Sub", rem, ("const", 1)), "C06-R2", key + "|count-1", "remaining decremented exactly once", "remaining updated with %s" % [show(x) for x in v], where_of(f), fn=f.key)
+    # every other method of the iterator structs (nth, fold, next_back, size_hint, ... whatever exists now or later):
+    # a method that moves any cursor moves all of them, and the counter, by the same amount -- otherwise the entity
+    # pointer and the column pointers fall out of step and an entity is presented with another entity's data
+    for (path, ptrs, cnt) in structs:
+        name = path.split("::")[-1]
+        others = [f for p_, f in sorted(ctx.gecs.fns.items()) if f.d.get("impl_self", "").startswith(path + "<") and f.kind == "AssocFn" and not f.d.get("trait_item", "").endswith("Iterator::next")]
+        for f in others:
+            ps = ctx.paths(f)
+            key = "%s::%s" % (name, fname(f))
+            if ps is None:
+                R.fail("C06-R2", key + "|paths", "path enumeration failed for a method of an iterator struct (fail closed)", where_of(f), fn=f.key)
+                continue
+            bad = None
+            for p in ps:
+                stores = {}
+                for e in p.effects:
+                    if e[0] == "store" and e[5] == f.key:
+                        L = NL(e[1])
+                        if L[0] == "field" and L[1] == ("deref", SELF):
+                            stores.setdefault(L[2], []).append(N(e[2]))
+                moved = [pf for pf in ptrs if pf in stores]
+                if not moved and cnt not in stores:
+                    continue
+                steps = set()
+                for pf in ptrs:
+                    v = stores.get(pf, [])
+                    if len(v) != 1 or not (is_call(v[0], "offset") or is_call(v[0], "add") or is_call(v[0], "wrapping_add") or is_call(v[0], "wrapping_offset")) or v[0][2][0] != sf(pf):
+                        bad = "cursor %s is %s on a path that moves %s" % (pf, "not moved" if not v else "updated with %s" % [show(x) for x in v], moved or [cnt])
+                        break
+                    steps.add(strip_epochs(v[0][2][1]))
+                if bad:
+                    break
+                v = stores.get(cnt, [])
+                if len(v) != 1 or v[0][0] != "bin" or v[0][1] != "Sub" or v[0][2] != sf(cnt):
+                    bad = "the counter is updated with %s on a path that moves the cursors" % [show(x) for x in v]
+                    break
+                steps.add(strip_epochs(v[0][3]))
+                if len(steps) != 1:
+                    bad = "cursors and counter move by different amounts: %s" % sorted(show(x) for x in steps)
+                    break
+            R.check(bad is None, "C06-R2", key + "|uniform-advance", "moves no cursor, or all cursors and the counter by one common amount", "%s: %s" % (key, bad), where_of(f), fn=f.key)
     # constructors: every aggregate of an iterator struct
     spaths = {p for p, _, _ in structs}
     built = 0
@@ -857,3 +940,205 @@ def rule_forbidden_calls(ctx, R):
     fixture = ["std::mem::forget", "std::mem::ManuallyDrop::<T>::new", "std::cell::Ref::<'b, T>::leak", "std::cell::RefCell::<T>::as_ptr"]
     hit = [p for p in fixture if any(cname(p) == x or cname(p).endswith("::" + x) for x in FORBIDDEN_CALLS)]
     R.check(len(hit) == len(fixture), "C04-R7", "forbidden-calls|fixture", "matcher fires on the positive fixture", "matcher misses %s" % [p for p in fixture if p not in hit], None)
+
+
+# ----------------------------------------------------------------------------------
+# C04-R1 / C02-R3: allocation discipline of DataPtr (GlobalAlloc contract + "growth preserves the cells")
+# ----------------------------------------------------------------------------------
+ALLOC_FNS = ("alloc::alloc", "alloc::alloc_zeroed", "alloc::realloc", "alloc::dealloc")
+MOVE_FNS = ("ptr::copy", "ptr::copy_nonoverlapping", "ptr::write_bytes", "ptr::swap", "ptr::swap_nonoverlapping", "mem::swap", "mem::replace", "ptr::replace")
+
+
+def _nonzero(p, pred):
+    """the branch conditions of path p imply X != 0 for an X with pred(X)"""
+    for (a, pol) in branch_atoms(p):
+        if a[0] != "cmp":
+            continue
+        op, x, y = a[1], a[2], a[3]
+        if op == "Eq" and pol is False and ((y == ("const", 0) and pred(x)) or (x == ("const", 0) and pred(y))):
+            return True
+        if op == "Lt" and pol is True and x == ("const", 0) and pred(y):
+            return True
+        if op == "Le" and pol is False and y == ("const", 0) and pred(x):
+            return True
+        if op == "Le" and pol is True and x == ("const", 1) and pred(y):
+            return True
+        if op == "Lt" and pol is False and y == ("const", 1) and pred(x):
+            return True
+    return False
+
+
+def _zero(p, pred):
+    for (a, pol) in branch_atoms(p):
+        if a[0] == "cmp" and a[1] == "Eq" and pol is True and ((a[3] == ("const", 0) and pred(a[2])) or (a[2] == ("const", 0) and pred(a[3]))):
+            return True
+        if a[0] == "cmp" and a[1] == "Le" and pol is True and a[3] == ("const", 0) and pred(a[2]):
+            return True
+        if a[0] == "cmp" and a[1] == "Lt" and pol is False and a[2] == ("const", 0) and pred(a[3]):
+            return True
+        if a[0] == "cmp" and a[1] == "Lt" and pol is True and a[3] == ("const", 1) and pred(a[2]):
+            return True
+    return False
+
+
+def call_targs(f, e):
+    """generic arguments of the call terminator behind a call effect"""
+    if len(e) > 8 and isinstance(e[8], dict):
+        return e[8].get("args") or []
+    return None
+
+
+def rule_alloc_discipline(ctx, R):
+    g = ctx.gecs
+    pref = "archetype::storage::DataPtr::<T>::"
+    fns = [f for p_, f in sorted(g.fns.items()) if p_.startswith(pref) and f.kind == "AssocFn"]
+    if len(fns) < 8:
+        R.anchor_missing("methods of DataPtr<T> (found %d)" % len(fns))
+        return
+    # the layout helper: new_layout::<T>(c) = Layout::array::<T>(c).unwrap() (possibly after a size assertion)
+    nl = g.fns.get("archetype::storage::new_layout")
+    nl_ok = False
+    if nl is not None:
+        ps = [p for p in (ctx.paths(nl, ctx.ex_keep) or ()) if p.end == "return"]
+        nl_ok = len(ps) >= 1 and all(is_call(N(p.ret), "unwrap") and is_call(N(p.ret)[2][0], "Layout::array") and N(p.ret)[2][0][2][0] == ("arg", 1) for p in ps)
+        R.check(nl_ok, "C04-R1", "new_layout|is-array-layout", "new_layout::<T>(c) returns Layout::array::<T>(c).unwrap()", "new_layout returns %s" % [show(N(p.ret)) for p in ps], where_of(nl), fn=nl.key)
+
+    def lay(v, cap):
+        v = strip_epochs(v)
+        if is_call(v, "new_layout") and nl_ok:
+            return strip_epochs(v[2][0]) == cap
+        if (is_call(v, "unwrap") or is_call(v, "expect") or is_call(v, "unwrap_unchecked")) and is_call(v[2][0], "Layout::array"):
+            return strip_epochs(v[2][0][2][0]) == cap
+        return False
+
+    def is_sizeof(x):
+        return is_call(x, "size_of")
+
+    base0 = ("load", ("field", ("deref", SELF), "0"), 0)
+
+    def is_base(v):
+        v = strip_epochs(v)
+        while v[0] == "cast":
+            v = v[2]
+        if is_call(v, "cast"):
+            v = v[2][0]
+        return is_call(v, "as_ptr") and strip_epochs(v[2][0]) == strip_epochs(base0)
+
+    def through_resolve(v):
+        v = strip_epochs(v)
+        if is_call(v, "resolve_ptr"):
+            return v[2][0]
+        if is_call(v, "new_unchecked") or (is_call(v, "unwrap") and is_call(v[2][0], "NonNull::new")):
+            x = v[2][0] if is_call(v, "new_unchecked") else v[2][0][2][0]
+            while x[0] == "cast":
+                x = x[2]
+            return x
+        return v
+
+    n_alloc = 0
+    for f in fns:
+        name = f.path[len(pref):]
+        ps = ctx.paths(f)
+        if ps is None:
+            R.fail("C04-R1", "DataPtr::%s|paths" % name, "path enumeration failed (fail closed)", where_of(f), fn=f.key)
+            continue
+        sig_args = {f.local_name(i): ("arg", i) for i in range(1, f.argc + 1)}
+        cap = sig_args.get("capacity")
+        oldcap = sig_args.get("old_capacity")
+        for pi, p in enumerate(ps):
+            if p.end != "return":
+                continue
+            calls = [e for e in p.effects if e[0] == "call" and e[4] == 0]
+            allocs = [e for e in calls if any(cname(e[2]).endswith(a) for a in ALLOC_FNS)]
+            moves = [e for e in calls if any(cname(e[2]).endswith(a) for a in MOVE_FNS)]
+            self_stores = [e for e in p.effects if e[0] == "store" and e[5] == f.key and NL(e[1]) == ("field", ("deref", SELF), "0")]
+            key = "DataPtr::%s" % name
+            if not allocs:
+                if name in ("grow", "dealloc"):
+                    # a path that does not (re)allocate is legitimate only where there is nothing to allocate
+                    trivial = _zero(p, is_sizeof) or (cap is not None and _zero(p, lambda x: strip_epochs(x) == cap))
+                    R.check(trivial, "C04-R1", key + "|no-op-only-when-empty", "returns without touching the allocator only for zero-sized T or capacity 0",
+                            "%s has a path that neither allocates nor frees although T is sized and the capacity is not zero (conditions: %s)" % (key, describe(branch_atoms(p))), where_of(f), fn=f.key)
+                    if name == "grow":
+                        R.check(not self_stores, "C04-R1", key + "|no-op-keeps-pointer", "the pointer is left alone on the no-op path", "the no-op path of grow overwrites the pointer", where_of(f), fn=f.key)
+                if moves and name != "swap_remove":
+                    R.fail("C02-R3", key + "|unexpected-move", "%s moves memory (%s) outside the reviewed primitives" % (key, [cname(e[2]) for e in moves]), where_of(f, moves[0][5]), fn=f.key)
+                continue
+            n_alloc += 1
+            sized = _nonzero(p, is_sizeof)
+            R.check(sized, "C04-R1", key + "|sized-T", "the allocator is only called for non-zero-sized T", "%s calls the allocator on a path that does not exclude size_of::<T>() == 0 (%s)" % (key, describe(branch_atoms(p))), where_of(f, allocs[0][5]), fn=f.key)
+            kinds = [cname(e[2]).split("::")[-1] for e in allocs]
+            by = {k: [e for e in allocs if cname(e[2]).endswith("alloc::" + k)] for k in ("alloc", "alloc_zeroed", "realloc", "dealloc")}
+            fresh = by["alloc"] + by["alloc_zeroed"]
+            newptr = None
+            if fresh:
+                e = fresh[0]
+                ok = len(fresh) == 1 and cap is not None and lay(N(e[3][0]), cap) and _nonzero(p, lambda x: strip_epochs(x) == cap)
+                R.check(ok, "C04-R1", key + "|alloc-layout", "allocates Layout::array::<T>(capacity) on a path with capacity != 0",
+                        "%s allocates with layout %s under %s; expected the array layout of its `capacity` argument and capacity != 0" % (key, show(N(e[3][0])), describe(branch_atoms(p))), where_of(f, e[5]), fn=f.key)
+                newptr = ("call",) + tuple(strip_epochs(("call", e[2], e[3], 0))[1:])
+            if by["realloc"]:
+                e = by["realloc"][0]
+                a = [N(x) for x in e[3]]
+                size_ok = cap is not None and is_call(strip_epochs(a[2]), "Layout::size") and lay(strip_epochs(a[2])[2][0][1] if strip_epochs(a[2])[2][0][0] == "refv" else strip_epochs(a[2])[2][0], cap)
+                ok = len(by["realloc"]) == 1 and not fresh and oldcap is not None and is_base(a[0]) and lay(a[1], oldcap) and size_ok
+                R.check(ok, "C02-R3", key + "|realloc-preserves", "realloc(self.0, Layout::array::<T>(old_capacity), size of Layout::array::<T>(capacity)): the old cells are carried over",
+                        "%s reallocates with (%s); expected (self.0, array layout of old_capacity, byte size of the array layout of capacity)" % (key, ", ".join(show(x) for x in a)), where_of(f, e[5]), fn=f.key)
+                R.check(_nonzero(p, lambda x: strip_epochs(x) == oldcap) and _nonzero(p, lambda x: strip_epochs(x) == cap), "C04-R1", key + "|realloc-only-allocated",
+                        "realloc only on a path with old_capacity != 0 and capacity != 0", "%s reallocates on a path that does not exclude an unallocated (dangling) block or a zero size: %s" % (key, describe(branch_atoms(p))), where_of(f, e[5]), fn=f.key)
+            if by["dealloc"]:
+                e = by["dealloc"][0]
+                a = [N(x) for x in e[3]]
+                which = oldcap if (name == "grow" and oldcap is not None) else cap
+                ok = len(by["dealloc"]) == 1 and which is not None and is_base(a[0]) and lay(a[1], which) and _nonzero(p, lambda x: strip_epochs(x) == which)
+                R.check(ok, "C04-R1", key + "|dealloc-layout", "dealloc(self.0, Layout::array::<T>(the capacity it was allocated with)) on a path where that capacity != 0",
+                        "%s frees with (%s) under %s; expected (self.0, array layout of the allocated capacity)" % (key, ", ".join(show(x) for x in a), describe(branch_atoms(p))), where_of(f, e[5]), fn=f.key)
+            if name == "grow":
+                # old cells must be carried over whenever there were any
+                if not _zero(p, lambda x: strip_epochs(x) == oldcap):
+                    carried = bool(by["realloc"])
+                    if not carried and fresh and moves:
+                        # alloc + copy + dealloc: the copy must cover old_capacity cells of T
+                        for m in moves:
+                            a = [strip_epochs(N(x)) for x in m[3]]
+                            ta = call_targs(f, m)
+                            cnt = a[2] if len(a) > 2 else None
+                            if ta is None or cnt is None or not cname(m[2]).endswith(("ptr::copy", "ptr::copy_nonoverlapping")):
+                                continue
+                            typed = ta[:1] in (["T"], ["std::mem::MaybeUninit<T>"])
+                            as_bytes = ta[:1] == ["u8"]
+                            mul = cnt[0] == "bin" and cnt[1] == "Mul" and ((cnt[2] == oldcap and is_sizeof(cnt[3])) or (cnt[3] == oldcap and is_sizeof(cnt[2])))
+                            lsz = is_call(cnt, "Layout::size") and lay(cnt[2][0][1] if cnt[2][0][0] == "refv" else cnt[2][0], oldcap)
+                            if ((typed and cnt == oldcap) or (as_bytes and (mul or lsz))) and is_base(a[0]) and by["dealloc"]:
+                                carried = True
+                    # a path on which the fresh allocation is known to be null ends in handle_alloc_error, nothing to carry
+                    if not carried and fresh and any(a_[0] == "bool" and is_call(strip_epochs(a_[1]), "is_null") and pol_ for (a_, pol_) in branch_atoms(p)):
+                        continue
+                    R.check(carried, "C02-R3", key + "|carries-old-cells", "growth from a non-empty block carries old_capacity cells of T into the new block",
+                            "%s: on the path with old_capacity != 0 the old cells are not provably carried over (realloc with the old layout, or alloc + copy of old_capacity cells of T + dealloc); calls: %s" % (
+                                key, [(cname(e[2]).split("::")[-1], [show(N(x))[:60] for x in e[3]]) for e in allocs + moves]), where_of(f), fn=f.key)
+                R.check(len(self_stores) == 1, "C04-R1", key + "|installs-new-block", "the new block is installed in self.0 exactly once", "%d stores to self.0 on an allocating path of grow" % len(self_stores), where_of(f), fn=f.key)
+                if self_stores:
+                    v = through_resolve(N(self_stores[0][2]))
+                    okv = any(is_call(v, k) for k in ("alloc::alloc", "alloc::alloc_zeroed", "alloc::realloc"))
+                    R.check(okv, "C04-R1", key + "|installs-allocator-result", "self.0 <- the pointer the allocator returned (null-checked)", "grow installs %s" % show(v)[:160], where_of(f), fn=f.key)
+            if name == "with_capacity":
+                v = N(p.ret)
+                inner = v[4][0][1] if v[0] == "agg" and v[4] else v
+                inner = through_resolve(inner)
+                R.check(any(is_call(inner, k) for k in ("alloc::alloc", "alloc::alloc_zeroed")), "C04-R1", key + "|returns-allocator-result", "returns the allocator's pointer (null-checked)", "with_capacity returns %s" % show(v)[:160], where_of(f), fn=f.key)
+            if moves and not (name == "grow" and fresh):
+                R.fail("C02-R3", key + "|unexpected-move", "%s moves memory (%s) outside the reviewed primitives" % (key, [cname(e[2]) for e in moves]), where_of(f, moves[0][5]), fn=f.key)
+    R.check(n_alloc >= 4, "C04-R1", "alloc-paths|count", "%d allocating/freeing paths of DataPtr judged" % n_alloc, "only %d allocating paths found" % n_alloc, None)
+    # who may call the allocator at all: DataPtr methods only
+    for path, fn in sorted(g.fns.items()):
+        if path.startswith(pref):
+            continue
+        for b in fn.blocks:
+            t = b["t"]
+            if t["k"] == "call" and not t["f"].get("indirect") and any(cname(t["f"]["path"]).endswith(a) for a in ALLOC_FNS):
+                R.fail("C04-R1", "allocator-call|%s" % fn.short(), "%s calls %s: only DataPtr methods may talk to the allocator" % (path, cname(t["f"]["path"])), where_of(fn, t["s"]), fn=fn.key)
+
+
+def describe(atoms):
+    return " & ".join(show_atom(a) for a in atoms) or "true"
